@@ -1780,6 +1780,65 @@ func (ck *Check) nodeListImmutability(rule string) {
 		}
 	}
 	ck.Stats[rule+" object field stores examined"] = objStores
+	// a resource.Quantity copied out of an object still shares its big-number payload (*inf.Dec) with
+	// it: in-place arithmetic on the copy writes into the listed object. The mutating methods are
+	// called only on quantities this code built itself.
+	for _, fn := range allFns {
+		for _, b := range fn.Blocks {
+			for _, in := range b.Instrs {
+				c, ok := in.(*ssa.Call)
+				if !ok {
+					continue
+				}
+				f := c.Common().StaticCallee()
+				if f == nil || pkgPathOfFn(f) != "k8s.io/apimachinery/pkg/api/resource" || f.Signature.Recv() == nil || len(c.Common().Args) == 0 {
+					continue
+				}
+				switch f.Name() {
+				case "Add", "Sub", "Neg", "Set", "SetMilli", "SetScaled", "RoundUp", "Mul":
+				default:
+					continue
+				}
+				own := func(v ssa.Value) bool {
+					switch y := v.(type) {
+					case *ssa.Const:
+						return true // the zero quantity
+					case *ssa.Call:
+						if g := y.Common().StaticCallee(); g != nil && pkgPathOfFn(g) == "k8s.io/apimachinery/pkg/api/resource" {
+							switch g.Name() {
+							case "NewQuantity", "NewMilliQuantity", "NewScaledQuantity", "MustParse", "DeepCopy":
+								return true
+							}
+						}
+					case *ssa.UnOp:
+						// *resource.NewQuantity(…)
+						if yc, ok := y.X.(*ssa.Call); ok && y.Op == token.MUL {
+							if g := yc.Common().StaticCallee(); g != nil && pkgPathOfFn(g) == "k8s.io/apimachinery/pkg/api/resource" && strings.HasPrefix(g.Name(), "New") {
+								return true
+							}
+						}
+					}
+					return false
+				}
+				okRecv := false
+				if al, isAlloc := c.Common().Args[0].(*ssa.Alloc); isAlloc {
+					okRecv = true
+					for _, r := range *al.Referrers() {
+						if st, isSt := r.(*ssa.Store); isSt && st.Addr == ssa.Value(al) && !own(st.Val) {
+							okRecv = false
+						}
+					}
+				} else if yc, isCall := c.Common().Args[0].(*ssa.Call); isCall {
+					okRecv = own(yc)
+				}
+				if !okRecv {
+					bad++
+					ck.fail(rule, fmt.Sprintf("%s/quantity-%s", funcID(fn), f.Name()), ck.P.instrPos(c), funcID(fn), "in-place Quantity arithmetic is applied only to quantities built here (a copy of a listed object's quantity shares its payload)", c.Common().Args[0].String(),
+						"the informer cache's node / pod is modified through the shared payload: capacity and requests drift from scan to scan")
+				}
+			}
+		}
+	}
 	// the informers hand the listers the API server's objects: no transform may rewrite (or
 	// replace by a trimmed copy) what is stored in the cache
 	for _, fn := range allFns {
